@@ -98,6 +98,9 @@ class APIEndpoint(BaseView):
     def view(self, *args, **kwargs):
         """Flask view of the API endpoint."""
         json = request.get_json() or {}
+        if not isinstance(json, dict):
+            # the job settings must be a JSON object
+            return invalid()
         user = session['user']
         LOG.info("Received order %r from user %r (%s, %s, %s)",
                  self.__class__.__name__,
